@@ -67,6 +67,32 @@ Proof.
   intro H. apply negb_true_iff in H. rewrite H. reflexivity.
 Qed.
 
+Lemma ref_index_assoc : forall (l : defs) r i0 i,
+  ref_index l r i0 = Some i ->
+  exists j s, nth_error l j = Some (r, s) /\ i = i0 + N.of_nat j /\ assoc r l = Some s.
+Proof.
+  induction l as [|[k s] l IH]; intros r i0 i H; cbn [ref_index] in H; [discriminate|].
+  cbn [assoc]. destruct (ustr_eqb r k) eqn:E.
+  - injection H as <-. apply ustr_eqb_eq in E. subst k. exists 0%nat, s. split; [reflexivity|]. split; [lia|reflexivity].
+  - destruct (IH r (i0 + 1) i H) as (j & s' & Hn & Hi & Ha). exists (S j), s'. split; [exact Hn|]. split; [lia|exact Ha].
+Qed.
+
+Lemma reaches_option_more T : forall n i, reaches_option T n i = false -> reaches_option T (S n) i = false.
+Proof.
+  induction n as [|n IH]; intros i H; [discriminate H|].
+  cbn [reaches_option] in H. cbn [reaches_option].
+  destruct (get_det T i) as [[]|]; try exact H; try reflexivity.
+  - destruct c; try reflexivity; apply IH; exact H.
+  - apply IH. exact H.
+Qed.
+
+Lemma reaches_option_newtype T k t n d i :
+  get_det T t = Some (DNewtype n d i CNone) -> reaches_option T (S k) t = reaches_option T k i.
+Proof. intros H. cbn [reaches_option]. rewrite H. reflexivity. Qed.
+
+Lemma reaches_option_le T n m i : (n <= m)%nat -> reaches_option T n i = false -> reaches_option T m i = false.
+Proof. intros Hle H. induction Hle as [|m Hle IH]; [exact H | apply reaches_option_more; exact IH]. Qed.
+
 Section ExactMain.
   Variable cls : Heck.CharClasses.
   Variable re : ustring -> ustring -> bool.
@@ -76,6 +102,10 @@ Section ExactMain.
   Local Notation keys := (map fst D).
   Local Notation A := (pairs_of D).
   Local Notation ex := (exact re D T A).
+  (* what ConvertShapeProofs.convert_shape establishes for every definition (needed to see
+     that the type of a "$ref" to a non-nullable definition does not reach an Option) *)
+  Hypothesis Htop : forall j d sch, nth_error D j = Some (d, sch) -> topshape cls D T sch (N.of_nat j + 1).
+  Hypothesis Hfrag : forall kv, In kv D -> frag cls keys (snd kv) = true.
 
   Section Unfold.
     Variable ty : option (list itype).
@@ -178,6 +208,51 @@ Section ExactMain.
       + unfold has in Hs. rewrite Hs. reflexivity.
   Qed.
 
+  (* ... and does not reach an Option through Box / newtype layers either (a "$ref" to a
+     non-nullable definition is that definition's type, or an alias newtype around it):
+     a required member of such a type cannot be absent (IR/Serde.v [missing]) *)
+  Lemma shape_no_reach : forall fuel s t,
+    frag cls keys s = true -> shape cls D T s t -> nullable D fuel s = false ->
+    reaches_option T (S (2 * fuel)) t = false.
+  Proof.
+    induction fuel as [|fuel IH]; intros s t;
+      (destruct s as [b|ty fmt enum cst nv sv ik items ai mni mxi uq props req ap mnp mxp allo anyo oneo no ref dflt title];
+        [discriminate|]);
+      intros Hf Hs Hn; cbn [shape] in Hs;
+      (destruct (classify _ _ _ _ _ _ _ _ _ _ _ _ _ _ _ _ _ _ _ _ _ _ _ _) as [[nl k]|] eqn:Hcl; [|contradiction]);
+      pose proof Hcl as Hcases; apply classify_cases in Hcases;
+      (destruct Hcases as [(l & tt & -> & -> & Hsp & Hk)|(-> & -> & _ & _ & _ & _ & _ & _ & _ & _ & _ & _ & _ & Hrk)]).
+    1,3: (destruct nl;
+      [ exfalso; cbn [nullable] in Hn;
+        destruct (split_type_cases l true tt Hsp) as [[H _]|(_ & _ & [->| ->])];
+        [discriminate| cbn [existsb itype_eqb] in Hn; destruct tt; discriminate Hn | discriminate Hn]
+      | pose proof Hk as Hinv; apply kind_of_type_inv in Hinv;
+        destruct Hinv as (_ & _ & _ & _ & _ & _ & _ & Hinv);
+        destruct k; try contradiction; cbn [kshape] in Hs; cbn [reaches_option];
+        try (unfold has in Hs; rewrite Hs; reflexivity);
+        try (destruct Hs as (? & ? & Hs & _); unfold has in Hs; rewrite Hs; reflexivity);
+        try (destruct Hs as (? & ? & _ & Hs); unfold has in Hs; rewrite Hs; reflexivity);
+        try (destruct Hs as (? & Hs & _); unfold has in Hs; rewrite Hs; try reflexivity;
+             match goal with c : _ |- _ => destruct c; reflexivity end) ]).
+    - (* fuel 0, "$ref" or no type: nullable answers true for a "$ref" *)
+      destruct Hrk as [(r & -> & ->)|(-> & ->)]; cbn [kshape] in Hs.
+      + cbn [nullable] in Hn. discriminate Hn.
+      + cbn [reaches_option]. unfold has in Hs. rewrite Hs. reflexivity.
+    - destruct Hrk as [(r & -> & ->)|(-> & ->)]; cbn [kshape] in Hs.
+      + destruct Hs as (Hri & _). cbn [nullable] in Hn.
+        unfold ref_id in Hri. destruct (ref_index_assoc D r 1 t Hri) as (j & sr & Hnth & Hi & Ha).
+        unfold resolve_ref in Hn. rewrite Ha in Hn.
+        assert (Hts : topshape cls D T sr t).
+        { replace t with (N.of_nat j + 1) by lia. eapply Htop. exact Hnth. }
+        assert (Hfs : frag cls keys sr = true) by (apply (Hfrag (r, sr)); eapply nth_error_In; exact Hnth).
+        replace (S (2 * S fuel)) with (S (S (S (2 * fuel)))) by lia.
+        destruct Hts as [[Hsh _]|(n & i & Hd & Hsh)].
+        * apply reaches_option_more, reaches_option_more. exact (IH sr t Hfs Hsh Hn).
+        * unfold has in Hd. rewrite (reaches_option_newtype T _ _ _ _ _ Hd).
+          apply reaches_option_more. exact (IH sr i Hfs Hsh Hn).
+      + cbn [reaches_option]. unfold has in Hs. rewrite Hs. reflexivity.
+  Qed.
+
   Definition E (s : schema) : Prop :=
     frag cls keys s = true -> no_nullable_enum s = true ->
     forall t, shape cls D T s t -> forall ft, Es s (S (S ft)) t = true.
@@ -204,7 +279,7 @@ Section ExactMain.
     unfold struct_x, ty_rep. cbn [forallb]. rewrite Hty. rewrite (nodup_ustr_NoDup _ Hndw). cbn [andb].
     assert (H1 : forallb (fun k => match Exact.find_wire k ps with
                                    | Some p => match p_state p with PRequired => true | _ => false end
-                                               && negb (is_option_det (get_det T (p_ty p)))
+                                               && negb (reaches_option T RFUEL (p_ty p))
                                    | None => false end) (req_enf D props req) = true).
     { apply forallb_forall. intros k Hk. unfold req_enf in Hk. apply filter_In in Hk. destruct Hk as [Hkr Hnn].
       pose proof (Hreq k Hkr) as Hhk. apply has_key_true in Hhk. destruct Hhk as (s' & Has).
@@ -215,7 +290,8 @@ Section ExactMain.
       assert (Hkreq : mem_ustr k req = true) by (apply mem_ustr_In; exact Hkr).
       destruct Hcase as [(_ & Hst & Hsh)|(Hf & _)]; [|congruence].
       rewrite Hst. cbn [andb]. apply negb_true_iff.
-      exact (shape_not_option s' (p_ty p) (Hfr _ Hin) Hsh Hnn). }
+      apply (reaches_option_le T (S (2 * NFUEL)) RFUEL); [unfold NFUEL, RFUEL; lia|].
+      exact (shape_no_reach NFUEL s' (p_ty p) (Hfr _ Hin) Hsh Hnn). }
     rewrite H1. cbn [andb].
     assert (Hflat : flat_props ps = []).
     { unfold flat_props. apply filter_none. intros p Hp. destruct (Hback p Hp) as (kv & _ & Hw).
@@ -461,7 +537,7 @@ Proof.
   unfold resolve_ref. rewrite (assoc_nth D j (fst p) sch (keys_sorted_NoDup _ Hks) Hn).
   rewrite Hs. replace (1 + N.of_nat j) with (N.of_nat j + 1) by lia.
   pose proof (nth_error_In _ _ Hn) as HinD.
-  apply (topshape_exact cls re D T sch); [exact (Hfr _ HinD)|exact (Hne _ HinD)|].
+  apply (topshape_exact cls re D T Hsh Hfr sch); [exact (Hfr _ HinD)|exact (Hne _ HinD)|].
   exact (Hsh j (fst p) sch Hn).
 Qed.
 
